@@ -385,4 +385,234 @@ Proof.
   - destruct (N.eq_dec c0 c) as [->|Hne]; rewrite ?updN_same, ?updN_other in Hr by auto; simpl in Hr; contradiction.
 Qed.
 
+(* ---- C19_s3_superseded ---- *)
+Definition in_acquire (p : spc) : bool :=
+  match p with QStart | QCreate | QHead | QAge _ _ | QTake _ _ | QTimeChk | QSleep _ => true | _ => false end.
+
+Definition is_acquire_of (a : N) (ev : sevent) : bool :=
+  match ev with SCall c (CAcquire _) => N.eqb c a | _ => false end.
+
+(* the lock object is not a's, and a is not inside acquire() *)
+Definition foreign (s : sstate) (a : N) : Prop :=
+  (forall o, obj s = Some o -> owner o <> a) /\ in_acquire (s_pc (scl s a)) = false.
+
+Ltac break_in H :=
+  repeat match type of H with
+         | context [match ?x with _ => _ end] => destruct x eqn:?
+         | context [if ?b then _ else _] => destruct b eqn:?
+         end.
+Ltac fin F Hc := simpl in Hc; repeat match goal with E : obj ?s = _ |- _ => tryif constr_eq E Hc then fail else (rewrite E in Hc; clear E) end; first [discriminate Hc | exact (F _ Hc eq_refl) | (inversion Hc; congruence)].
+
+Lemma foreign_step s ev a : sinv s -> foreign s a -> is_acquire_of a ev = false ->
+  foreign (sstep lease rsleep s ev) a.
+Proof.
+  intros I [F P] Hev.
+  assert (Hpc : in_acquire (s_pc (scl (sstep lease rsleep s ev) a)) = false).
+  { destruct ev as [c k|c f j|c f|d|c]; simpl in *.
+    - destruct (N.eq_dec c a) as [->|Hne];
+        repeat break_match; simpl; rewrite ?updN_same, ?updN_other by auto; simpl; auto;
+        try (rewrite N.eqb_refl in Hev; discriminate); congruence.
+    - destruct (N.eq_dec c a) as [->|Hne].
+      + destruct (s_alive (scl s a)); [|simpl; auto].
+        destruct (s_pc (scl s a)) eqn:Pa; simpl in P; try discriminate;
+          repeat break_match; simpl; rewrite ?updN_same; simpl; rewrite ?Pa; auto.
+      + repeat break_match; simpl; rewrite ?updN_other by auto; auto.
+    - destruct (N.eq_dec c a) as [->|Hne];
+        repeat break_match; simpl; rewrite ?updN_same, ?updN_other by auto; simpl; auto.
+    - auto.
+    - destruct (N.eq_dec c a) as [->|Hne]; rewrite ?updN_same, ?updN_other by auto; simpl; auto. }
+  split; [|exact Hpc].
+  intros o' Eo'. destruct (step_obj s ev I) as [Hs|[Hn|[c [Hc Hprev]]]].
+  - apply F. congruence.
+  - congruence.
+  - rewrite Hc in Eo'. inversion Eo'; subst o'; simpl. intro Hca; subst c.
+    (* a itself wrote: impossible outside acquire() while the object is foreign *)
+    clear Hprev Eo'.
+    destruct ev as [c k|c f j|c f|d|c]; simpl in Hc.
+    + break_in Hc; fin F Hc.
+    + destruct (N.eq_dec c a) as [->|Hne].
+      * destruct (s_alive (scl s a)); [|fin F Hc].
+        destruct (s_pc (scl s a)) eqn:Pa; simpl in P; try discriminate; break_in Hc; fin F Hc.
+      * break_in Hc; fin F Hc.
+    + destruct (N.eq_dec c a) as [->|Hne].
+      * destruct (s_alive (scl s a) && hb (scl s a) && is_locked (scl s a)); [|fin F Hc].
+        destruct (my_etag (scl s a)) as [e|] eqn:M; [|fin F Hc].
+        assert (Hm : etag_matches s e = false).
+        { destruct (etag_matches s e) eqn:Em; [|reflexivity]. destruct (etag_matches_spec s e Em) as [o [Eo Ee]].
+          exfalso. apply (F o Eo). apply (E_own s I a e o M Eo Ee). }
+        rewrite Hm in Hc. destruct f; fin F Hc.
+      * break_in Hc; fin F Hc.
+    + fin F Hc.
+    + fin F Hc.
+Qed.
+
+Lemma foreign_run evs : forall s a, sinv s -> foreign s a -> forallb (fun ev => negb (is_acquire_of a ev)) evs = true ->
+  sinv (srun lease rsleep s evs) /\ foreign (srun lease rsleep s evs) a.
+Proof.
+  induction evs as [|ev evs IH]; intros s a I F H; simpl; [auto|].
+  simpl in H. apply andb_true_iff in H. destruct H as [H1 H2]. apply negb_true_iff in H1.
+  apply IH; auto. apply step_sinv; auto. apply foreign_step; auto.
+Qed.
+
+Theorem s3_superseded : forall evs1 evs2 a,
+  let s1 := srun lease rsleep sinit evs1 in
+  foreign s1 a ->
+  forallb (fun ev => negb (is_acquire_of a ev)) evs2 = true ->
+  let s2 := srun lease rsleep s1 evs2 in
+  foreign s2 a
+  /\ (forall f j, s_res (scl s2 a) <> STrue -> s_res (scl (sstep lease rsleep s2 (SStep a f j)) a) <> STrue)
+  /\ (forall f, obj (sstep lease rsleep s2 (SRenew a f)) = obj s2)
+  /\ (forall e, s_alive (scl s2 a) = true -> hb (scl s2 a) = true -> is_locked (scl s2 a) = true ->
+                my_etag (scl s2 a) = Some e ->
+                is_locked (scl (sstep lease rsleep s2 (SRenew a FNone)) a) = false).
+Proof.
+  intros evs1 evs2 a s1 F H s2.
+  destruct (run_inv evs1 sinit sinv_init (fun _ => hinv_init)) as [I1 _]. fold s1 in I1.
+  destruct (foreign_run evs2 s1 a I1 F H) as [I2 F2]. fold s2 in I2, F2.
+  assert (Hm : forall e, my_etag (scl s2 a) = Some e -> etag_matches s2 e = false).
+  { intros e M. destruct (etag_matches s2 e) eqn:Em; [|reflexivity].
+    destruct (etag_matches_spec s2 e Em) as [o [Eo Ee]]. exfalso. apply (proj1 F2 o Eo). apply (E_own s2 I2 a e o M Eo Ee). }
+  split; [exact F2|]. split; [|split].
+  - intros f j Hn Hr. destruct (s3_is_held_sound s2 _ a Hn Hr) as (f0 & j0 & b & o & _ & _ & Eo & Ow).
+    apply (proj1 F2 o Eo Ow).
+  - intro f. simpl. destruct (s_alive (scl s2 a) && hb (scl s2 a) && is_locked (scl s2 a)); [|reflexivity].
+    destruct (my_etag (scl s2 a)) as [e|] eqn:M; [|reflexivity]. rewrite (Hm e eq_refl).
+    destruct f; reflexivity.
+  - intros e A Hb L M. simpl. rewrite A, Hb, L, M. simpl. rewrite (Hm e M). simpl. rewrite updN_same. reflexivity.
+Qed.
+
+(* ---- C19_s3_timeout ---- *)
+Record stinv (s : sstate) (c : N) : Prop := {
+  ST_loop : in_acquire (s_pc (scl s c)) = true -> s_pc (scl s c) <> QStart ->
+            last_t (scl s c) = s_start (scl s c) \/ last_t (scl s c) - s_start (scl s c) < s_timeout (scl s c);
+  ST_ret : s_res (scl s c) = STimeout ->
+           s_timeout (scl s c) <= t_ret (scl s c) - s_start (scl s c)
+           /\ (t_prev (scl s c) = s_start (scl s c) \/ t_prev (scl s c) - s_start (scl s c) < s_timeout (scl s c))
+           /\ t_ret (scl s c) - t_prev (scl s c) <= s_maxgap (scl s c)
+}.
+
+Lemma stinv_init c : stinv sinit c.
+Proof. constructor; simpl; intros; discriminate. Qed.
+
+Ltac tfin T1 T2 :=
+  constructor; unfold s_cl, s_set, s_log; simpl; rewrite ?updN_same, ?updN_other by auto; simpl;
+  try match goal with E : s_pc _ = _ |- _ => rewrite !E end; auto;
+  try (intros; discriminate); try (intros; congruence);
+  try (intros A B; first [discriminate A | (exfalso; apply B; reflexivity) | (apply T1; [reflexivity|discriminate])
+                          | (left; reflexivity)]).
+
+Lemma stinv_step s ev c : stinv s c -> stinv (sstep lease rsleep s ev) c.
+Proof.
+  intros [T1 T2].
+  destruct ev as [c0 k|c0 f j|c0 f|d|c0]; simpl.
+  - destruct (N.eq_dec c0 c) as [->|Hne].
+    + destruct (s_alive (scl s c)); [|tfin T1 T2].
+      destruct (s_pc (scl s c)) eqn:P;
+        [destruct k; [|destruct (is_locked (scl s c))..]; tfin T1 T2 | tfin T1 T2 ..].
+    + repeat break_match; tfin T1 T2.
+  - destruct (N.eq_dec c0 c) as [->|Hne].
+    + destruct (s_alive (scl s c)); [|tfin T1 T2].
+      destruct (s_pc (scl s c)) as [| | | |l e|l e| |u|second|u| |] eqn:P.
+      * tfin T1 T2.
+      * tfin T1 T2.
+      * destruct f; repeat break_match; tfin T1 T2.
+      * destruct f; repeat break_match; tfin T1 T2.
+      * break_match; tfin T1 T2.
+      * destruct f; repeat break_match; tfin T1 T2.
+      * (* QTimeChk *)
+        assert (T1' := T1 eq_refl ltac:(discriminate)).
+        destruct (Z.geb_spec (snow s - s_start (scl s c)) (s_timeout (scl s c))) as [Hge|Hlt];
+          constructor; simpl; rewrite ?updN_same; simpl; intros; try discriminate.
+        -- split; [lia|]. split; [exact T1'|lia].
+        -- right. lia.
+      * tfin T1 T2.
+      * destruct f, second; repeat break_match; tfin T1 T2.
+      * tfin T1 T2.
+      * destruct f; repeat break_match; tfin T1 T2.
+      * break_match; tfin T1 T2.
+    + repeat break_match; tfin T1 T2.
+  - destruct (N.eq_dec c0 c) as [->|Hne]; repeat break_match; tfin T1 T2.
+  - tfin T1 T2.
+  - destruct (N.eq_dec c0 c) as [->|Hne]; tfin T1 T2.
+Qed.
+
+Lemma stinv_run evs : forall s c, stinv s c -> stinv (srun lease rsleep s evs) c.
+Proof. induction evs as [|ev evs IH]; intros; simpl; auto. apply IH. apply stinv_step. assumption. Qed.
+
+Theorem s3_timeout : forall evs c,
+  let x := scl (srun lease rsleep sinit evs) c in
+  s_res x = STimeout ->
+  s_start x + s_timeout x <= t_ret x
+  /\ t_ret x <= Z.max (s_start x) (s_start x + s_timeout x) + s_maxgap x
+  /\ (0 < s_timeout x -> t_ret x < s_start x + s_timeout x + s_maxgap x).
+Proof.
+  intros evs c x H.
+  destruct (stinv_run evs sinit c (stinv_init c)) as [_ T2]. fold x in T2.
+  destruct (T2 H) as (A & B & G). repeat split; lia.
+Qed.
+
+(* acquire() returns True only when the object was absent or its lease had lapsed *)
+Theorem s3_ok_only_when_unowned : forall evs ev c,
+  let s := srun lease rsleep sinit evs in
+  s_res (scl s c) <> SOk -> s_res (scl (sstep lease rsleep s ev) c) = SOk ->
+  (obj s = None \/ exists o, obj s = Some o /\ snow s - lm o > lease)
+  /\ obj (sstep lease rsleep s ev) = Some (fresh_obj s c).
+Proof.
+  intros evs ev c s Hn Hr.
+  destruct (run_inv evs sinit sinv_init (fun _ => hinv_init)) as [I _]. fold s in I. clearbody s.
+  destruct ev as [c0 k|c0 f j|c0 f|d|c0]; simpl in *.
+  - destruct (N.eq_dec c0 c) as [->|Hne];
+      repeat match type of Hr with
+             | context [match ?x with _ => _ end] => destruct x eqn:?
+             | context [if ?b then _ else _] => destruct b eqn:?
+             end; simpl in Hr; rewrite ?updN_same, ?updN_other in Hr by auto; simpl in Hr; try contradiction; try discriminate.
+  - destruct (N.eq_dec c0 c) as [->|Hne].
+    + destruct (s_alive (scl s c)); [|simpl in Hr; contradiction].
+      destruct (s_pc (scl s c)) as [| | | |l e|l e| |u|second|u| |] eqn:P;
+        try (repeat match type of Hr with
+             | context [match ?x with _ => _ end] => destruct x eqn:?
+             | context [if ?b then _ else _] => destruct b eqn:?
+             end; simpl in Hr; rewrite ?updN_same in Hr; simpl in Hr; try contradiction; discriminate).
+      * (* QCreate *)
+        destruct f; destruct (obj s) eqn:Eo; simpl in Hr; rewrite ?updN_same in Hr; simpl in Hr;
+          try contradiction; try discriminate. simpl. auto.
+      * (* QTake *)
+        destruct f; destruct (etag_matches s e) eqn:Em; simpl in Hr; rewrite ?updN_same in Hr; simpl in Hr;
+          try contradiction; try discriminate. simpl. split; [|reflexivity]. right.
+        destruct (etag_matches_spec s e Em) as [o [Eo Ee]]. exists o. split; auto.
+        destruct (E_pc s I c l e (or_intror P)) as [_ B]. rewrite (B o Eo Ee). apply (E_take s I c l e P).
+    + repeat match type of Hr with
+             | context [match ?x with _ => _ end] => destruct x eqn:?
+             | context [if ?b then _ else _] => destruct b eqn:?
+             end; simpl in Hr; rewrite ?updN_other in Hr by auto; simpl in Hr; try contradiction.
+  - destruct (N.eq_dec c0 c) as [->|Hne];
+      repeat match type of Hr with
+             | context [match ?x with _ => _ end] => destruct x eqn:?
+             | context [if ?b then _ else _] => destruct b eqn:?
+             end; simpl in Hr; rewrite ?updN_same, ?updN_other in Hr by auto; simpl in Hr; try contradiction; try discriminate.
+  - contradiction.
+  - destruct (N.eq_dec c0 c) as [->|Hne]; rewrite ?updN_same, ?updN_other in Hr by auto; simpl in Hr; contradiction.
+Qed.
+
 End S3.
+
+(* ---- C19_s3_mutex_refuted: the faithful model of the unchanged code violates the full statement ---- *)
+Definition fc19_witness : list sevent :=
+  [ SCall 0%N (CAcquire 2000); SStep 0%N FNone 300; SStep 0%N FNone 300;      (* A holds since t=0 *)
+    SCall 0%N CRelease; SStep 0%N FNone 300;                                  (* A: GET -> body is mine *)
+    STick 60001;                                                              (* A paused past its lease *)
+    SCall 1%N (CAcquire 2000); SStep 1%N FNone 300; SStep 1%N FNone 300; SStep 1%N FNone 300;
+    SStep 1%N FNone 300; SStep 1%N FNone 300;                                 (* B takes over, legitimately *)
+    SStep 0%N FNone 300;                                                      (* A: unconditional DELETE *)
+    SCall 2%N (CAcquire 2000); SStep 2%N FNone 300; SStep 2%N FNone 300 ].    (* C creates: B and C both live *)
+
+Theorem s3_mutex_refuted : ~ s3_mutex_full 60000 200.
+Proof.
+  intro M. specialize (M fc19_witness 1%N 2%N).
+  assert (H : forall c, (c = 1%N \/ c = 2%N) -> holder_live 60000 (srun 60000 200 sinit fc19_witness) c).
+  { intros c [->| ->]; vm_compute; repeat split; intro; discriminate. }
+  specialize (M (H 1%N (or_introl eq_refl)) (H 2%N (or_intror eq_refl))). discriminate.
+Qed.
+
+Lemma fc19_witness_is_late : late_delete (srun 60000 200 sinit fc19_witness) = true.
+Proof. vm_compute. reflexivity. Qed.
